@@ -86,6 +86,103 @@ class Recorder:
             setattr(np.random, n, f)
 
 
+class Player(Recorder):
+    """A scripted source of draws instead of numpy's generator: mostly uniform, but every so often an extreme
+    (first / last index, 0, the smallest positive doubles, 1 - 2^-53).  The theorems about the generator hold
+    for ALL streams of draws; a pseudo-random generator only ever shows typical ones."""
+
+    def __init__(self, rng, extreme=0.12):
+        super().__init__()
+        import random as _r
+        self.rng = rng if rng is not None else _r.Random(0)
+        self.extreme = extreme
+        rec = self
+
+        def pick(n):
+            if n <= 1:
+                return 0
+            if rec.rng.random() < rec.extreme:
+                return rec.rng.choice([0, n - 1])
+            return rec.rng.randrange(n)
+
+        def unit(zero=True):
+            x = rec.rng.random()
+            if x < rec.extreme:
+                k = rec.rng.choice(([0] if zero else []) + [1, 2, 2 ** 20, 2 ** 38 + 1, TWO53 - 1, TWO53 - 2, TWO53 // 2])
+            else:
+                k = rec.rng.randrange(TWO53)
+            return k / TWO53
+
+        def choice(a, size=None, replace=True, p=None):
+            if p is not None:
+                return rec.numpy_real["choice"](a, size, replace, p)
+            n = int(a) if isinstance(a, (int, np.integer)) else len(list(a))
+            if size is None:
+                return pick(n)
+            k = int(size)
+            if replace:
+                return np.array([pick(n) for _ in range(k)], dtype=np.int64)
+            pool, out = list(range(n)), []
+            for _ in range(k):
+                out.append(pool.pop(pick(len(pool))))
+            return np.array(out, dtype=np.int64)
+
+        def randint(low, high=None, size=None):
+            lo, hi = (0, int(low)) if high is None else (int(low), int(high))
+            if size is not None:
+                return np.array([lo + pick(hi - lo) for _ in range(int(size))], dtype=np.int64)
+            return lo + pick(hi - lo)
+
+        def rand(*args):
+            if args:
+                return np.array([unit() for _ in range(int(np.prod(args)))]).reshape(args)
+            return unit()
+
+        def random_sample(size=None):
+            # the generator turns these draws into action probabilities, documented to lie in (0, 1]: the draw 0.0
+            # (one in 2^53 for numpy) is the known hypothesis of the C15 / C16 theorems, not scripted here
+            if size is None:
+                return unit(zero=False)
+            return np.array([unit(zero=False) for _ in range(int(np.prod(size)))]).reshape(size)
+
+        def poisson(lam=1.0, size=None):
+            return rec.rng.choice([0, 1, 1, 2, 3]) if rec.rng.random() < rec.extreme else int(np.random.RandomState(rec.rng.randrange(2 ** 31)).poisson(lam))
+        self.real = dict(self.real, choice=choice, randint=randint, rand=rand, random_sample=random_sample,
+                         poisson=poisson)
+        self.numpy_real = {n: getattr(np.random, n) for n in NAMES}
+
+    def remove(self):
+        for n, f in self.numpy_real.items():
+            setattr(np.random, n, f)
+
+
+def generate_scripted(params, rng, generator=None, watchdog_s=8):
+    """the real generator fed by a scripted stream of draws (Player); returns (Scenario, oracle, calls) or None
+    when the generator does not finish within the watchdog (rejection sampling can starve on adversarial draws)"""
+    import signal
+    import nasim
+    rec = Player(rng)
+
+    class _Timeout(Exception):
+        pass
+
+    def _alarm(signum, frame):
+        raise _Timeout()
+    old = signal.signal(signal.SIGALRM, _alarm)
+    signal.alarm(watchdog_s)
+    rec.install()
+    try:
+        kw = {k: v for k, v in params.items() if k != "seed"}
+        sc = nasim.generate_scenario(**kw) if generator is None else generator.generate(**kw)
+    except _Timeout:
+        return None
+    finally:
+        signal.alarm(0)
+        signal.signal(signal.SIGALRM, old)
+        rec.remove()
+    return sc, rec.oracle, rec.calls
+
+
 def thr(x):
     """ceil(x * 2^53) of a double threshold"""
     f = Fraction(float(x)) * TWO53
